@@ -7,6 +7,8 @@ package lib
 // station's complaint about it must not contain those addresses.
 
 import (
+	"time"
+	"sync"
 	"context"
 	"encoding/hex"
 	"fmt"
@@ -43,6 +45,7 @@ type c17iCase struct {
 	Source    int  `json:"source"`
 	Dup       bool `json:"dup"` // the message is delivered twice
 	Unidir    bool `json:"unidir"`
+	Tunnel    int  `json:"tunnel"` // what the station's dial to a DTLS client does: 0 times out, 1 yields a session that is relayed to a reachable covert, 2 yields a session whose covert refuses
 }
 
 // distinctive client addresses: nothing else in the harness uses these bytes
@@ -100,11 +103,32 @@ func c17iNeedles(b []byte) []string {
 
 type c17iDTLS struct {
 	dtls.Transport
+	st *c17iDial
 }
 
-// Connect: the station would dial out to the client here; the harness refuses without touching the network.
-func (c17iDTLS) Connect(ctx context.Context, reg transports.Registration) (net.Conn, error) {
-	return nil, context.DeadlineExceeded
+type c17iDial struct {
+	mu     sync.Mutex
+	tunnel int
+}
+
+// Connect: the station would dial out to the client here. The harness either refuses without
+// touching the network or hands back the station's end of an established session (a pipe: the
+// session itself carries no address) on which the client says a few bytes and hangs up.
+func (d c17iDTLS) Connect(ctx context.Context, reg transports.Registration) (net.Conn, error) {
+	d.st.mu.Lock()
+	mode := d.st.tunnel
+	d.st.mu.Unlock()
+	if mode == 0 {
+		return nil, context.DeadlineExceeded
+	}
+	station, client := net.Pipe()
+	go func() {
+		_, _ = client.Write([]byte("hello from the client"))
+		_ = client.SetReadDeadline(time.Now().Add(200 * time.Millisecond))
+		_, _ = client.Read(make([]byte, 64))
+		_ = client.Close()
+	}()
+	return station, nil
 }
 
 func c17iGenAddr(rt *rapid.T, label string, kinds []string) c17iAddr {
@@ -115,9 +139,9 @@ func c17iGenAddr(rt *rapid.T, label string, kinds []string) c17iAddr {
 }
 
 func TestVerif_C17_ingest(t *testing.T) {
-	rec := vh.NewRec("C17", "ingest", "rapid-generated registration messages through the real parseRegMessage + ingestRegistration with the real min / prefix / obfs4 / dtls transports: registrant address {absent, IPv4, IPv6, v4-mapped, 3 / 17 / 0 bytes}, DTLS client endpoints {absent, right family, wrong family, v4-mapped, wrong length} x ports {valid, 0, 65536, 70000, 2^31}, parameters of the right / another transport's type / absent, known / unknown generation, library versions, families, complete / short secret, every registration source, duplicates; covert address always permitted (the line logged on purpose for a forbidden covert is outside the property); oracle: nothing logged at the default level contains any textual form (dotted, colon, hex, decimal bytes) of the registrant address or of the DTLS client endpoints; non-trivial = the station logged something for the message (it complained); distinct by case")
+	rec := vh.NewRec("C17", "ingest", "rapid-generated registration messages through the real parseRegMessage + ingestRegistration with the real min / prefix / obfs4 / dtls transports: registrant address {absent, IPv4, IPv6, v4-mapped, 3 / 17 / 0 bytes}, DTLS client endpoints {absent, right family, wrong family, v4-mapped, wrong length} x ports {valid, 0, 65536, 70000, 2^31}, parameters of the right / another transport's type / absent, known / unknown generation, library versions, families, complete / short secret, every registration source, duplicates; the station's dial to a DTLS client times out / yields a session that is relayed to a reachable covert / to a covert that refuses (so that the tunnel summary with its transport options is written); covert address always permitted (the line logged on purpose for a forbidden covert is outside the property); oracle: nothing logged at the default level contains any textual form (dotted, colon, hex, decimal bytes) of the registrant address or of the DTLS client endpoints; non-trivial = the station logged something for the message (it complained); distinct by case")
 	defer rec.Flush()
-	rec.Require("station-complained", "tt:dtls", "dtls-endpoint-malformed", "regaddr-malformed")
+	rec.Require("station-complained", "tt:dtls", "dtls-endpoint-malformed", "regaddr-malformed", "tunnel-summary-logged")
 	if vh.ReplayFile() != "" && !strings.Contains(vh.ReplayFile(), "_ingest_") {
 		t.Skip("replay file belongs to another sub-check")
 	}
@@ -129,10 +153,32 @@ func TestVerif_C17_ingest(t *testing.T) {
 	defer func() { golog.SetOutput(oldLog); log.SetOutput(oldLog) }()
 	e := vNewEnv(t, nil, "")
 	e.rm.Logger = log.New(capture, "[REG] ", golog.Ldate|golog.Lmicroseconds)
-	e.rm.connectingStats = &c17cStats{done: make(chan string, 1<<16)}
-	if err := e.rm.AddTransport(pb.TransportType_DTLS, c17iDTLS{}); err != nil {
+	done := make(chan string, 1<<16)
+	e.rm.connectingStats = &c17cStats{done: done}
+	dial := &c17iDial{}
+	if err := e.rm.AddTransport(pb.TransportType_DTLS, c17iDTLS{st: dial}); err != nil {
 		t.Fatalf("harness problem: %v", err)
 	}
+	// a covert that answers and hangs up
+	covert, err := net.Listen("tcp", "127.0.0.1:0")
+	if err != nil {
+		t.Fatalf("harness problem: %v", err)
+	}
+	defer covert.Close()
+	go func() {
+		for {
+			c, err := covert.Accept()
+			if err != nil {
+				return
+			}
+			go func() {
+				_ = c.SetDeadline(time.Now().Add(2 * time.Second))
+				_, _ = c.Read(make([]byte, 64))
+				_, _ = c.Write([]byte("covert says hi"))
+				_ = c.Close()
+			}()
+		}
+	}()
 	tts := []pb.TransportType{pb.TransportType_Min, pb.TransportType_Prefix, pb.TransportType_Obfs4, pb.TransportType_DTLS, pb.TransportType(99)}
 	names := []string{"min", "prefix", "obfs4", "dtls", "unknown"}
 	sources := []pb.RegistrationSource{pb.RegistrationSource_API, pb.RegistrationSource_Detector, pb.RegistrationSource_BidirectionalAPI, pb.RegistrationSource_DNS, pb.RegistrationSource_BidirectionalDNS, pb.RegistrationSource_DetectorPrescan, pb.RegistrationSource_Unspecified}
@@ -140,6 +186,9 @@ func TestVerif_C17_ingest(t *testing.T) {
 	run := func(t vh.Fataler, c c17iCase) {
 		n++
 		e.resetRegistry()
+		for len(done) > 0 {
+			<-done
+		}
 		secret := vSecret(7000 + n%50)
 		if c.SecretLen < 32 {
 			secret = secret[:c.SecretLen]
@@ -163,10 +212,20 @@ func TestVerif_C17_ingest(t *testing.T) {
 			}
 			params = p
 		}
+		covertAddr := "198.51.100.10:443"
+		switch c.Tunnel {
+		case 1:
+			covertAddr = covert.Addr().String()
+		case 2:
+			covertAddr = "127.0.0.1:1"
+		}
+		dial.mu.Lock()
+		dial.tunnel = c.Tunnel
+		dial.mu.Unlock()
 		c2s := &pb.ClientToStation{
 			ClientLibVersion:    proto.Uint32(c.LibVer),
 			DecoyListGeneration: proto.Uint32(c.Gen),
-			CovertAddress:       proto.String("198.51.100.10:443"),
+			CovertAddress:       proto.String(covertAddr),
 			V4Support:           proto.Bool(c.V4),
 			V6Support:           proto.Bool(c.V6),
 			Transport:           tts[c.TT].Enum(),
@@ -192,7 +251,7 @@ func TestVerif_C17_ingest(t *testing.T) {
 		if c.Dup {
 			times = 2
 		}
-		admitted := 0
+		admitted, dials := 0, 0
 		for i := 0; i < times; i++ {
 			// what a worker does with a message (HandleRegUpdates' loop body)
 			regs, err := e.rm.parseRegMessage(b)
@@ -202,13 +261,38 @@ func TestVerif_C17_ingest(t *testing.T) {
 			}
 			for _, reg := range regs {
 				if reg != nil {
+					was := e.rm.RegistrationExists(reg)
 					e.rm.ingestRegistration(reg)
 					admitted++
+					if !was && reg.Valid && reg.Transport == pb.TransportType_DTLS {
+						dials++ // a newly validated connecting-transport registration: the station dials out
+					}
+				}
+			}
+		}
+		// let the station's dial(s) and the tunnels they carry finish: what they log belongs to this case
+		for ; dials > 0; dials-- {
+			deadline := time.After(20 * time.Second)
+		wait:
+			for {
+				select {
+				case <-done:
+					break wait
+				case <-deadline:
+					rec.Note("a dial did not report its outcome within 20 s (case %s)", vh.Digest(c))
+					break wait
+				case <-time.After(2 * time.Millisecond):
+					if l := capture.String()[start:]; strings.Contains(l, "Failed to get CC") || strings.Contains(l, "Failed to get ASN") {
+						break wait
+					}
 				}
 			}
 		}
 		logs := capture.String()[start:]
 		classes := []string{"tt:" + names[c.TT]}
+		if strings.Contains(logs, "proxy closed") {
+			classes = append(classes, "tunnel-summary-logged")
+		}
 		if logs != "" {
 			classes = append(classes, "station-complained")
 		}
@@ -265,6 +349,7 @@ func TestVerif_C17_ingest(t *testing.T) {
 			Source:    rapid.IntRange(0, 6).Draw(rt, "source"),
 			Dup:       rapid.IntRange(0, 4).Draw(rt, "dup") == 0,
 			Unidir:    rapid.Bool().Draw(rt, "unordered"),
+			Tunnel:    rapid.SampledFrom([]int{0, 1, 1, 2}).Draw(rt, "tunnel"),
 		}
 		c.ParamsFor = c.TT
 		switch rapid.IntRange(0, 5).Draw(rt, "paramsmode") {
